@@ -110,8 +110,35 @@ fn stark_transcripts(e: &mut Emitter, r: &mut Rng, thorough: bool) {
     }
 }
 
+/// Byte-oriented digests (`KeccakHash<25>`, the hasher of `KeccakGoldilocksConfig`): every byte of an
+/// observed digest / cap entry must reach the transcript (`BytesHash::to_vec` packs 7 bytes per field
+/// element, the last chunk holds `N mod 7` bytes), for both challenger flavours that can observe it.
+fn byte_digest_binding(e: &mut Emitter, r: &mut Rng) {
+    use plonky2::hash::hash_types::BytesHash;
+    use plonky2::hash::keccak::KeccakHash;
+    use plonky2::hash::merkle_tree::MerkleCap;
+    use plonky2::hash::poseidon::PoseidonHash;
+    use plonky2::iop::challenger::Challenger;
+    e.stage("impl: byte-digest binding of the transcript");
+    let mut a = [0u8; 25];
+    for x in a.iter_mut() { *x = r.below(256) as u8; }
+    let ch_k = |h: [u8; 25]| { let mut c = Challenger::<F, KeccakHash<25>>::new(); c.observe_hash::<KeccakHash<25>>(BytesHash(h)); c.get_challenge() };
+    let ch_p = |h: [u8; 25]| { let mut c = Challenger::<F, PoseidonHash>::new(); c.observe_hash::<KeccakHash<25>>(BytesHash(h)); c.get_challenge() };
+    let ch_cap = |h: [u8; 25]| { let mut c = Challenger::<F, KeccakHash<25>>::new(); c.observe_cap::<KeccakHash<25>>(&MerkleCap(vec![BytesHash([7u8; 25]), BytesHash(h)])); c.get_challenge() };
+    let (k0, p0, c0) = (ch_k(a), ch_p(a), ch_cap(a));
+    for k in 0..25 {
+        let mut b = a;
+        b[k] ^= 1 << (k % 8);
+        e.count("byte-digest binding probe");
+        if ch_k(b) == k0 { e.oracle_failures.push(format!("the challenge after observing a KeccakHash<25> digest does not depend on byte {k} of the digest (Keccak challenger)")); }
+        if ch_p(b) == p0 { e.oracle_failures.push(format!("the challenge after observing a KeccakHash<25> digest does not depend on byte {k} of the digest (Poseidon challenger)")); }
+        if ch_cap(b) == c0 { e.oracle_failures.push(format!("the challenge after observing a Merkle cap of KeccakHash<25> digests does not depend on byte {k} of its last entry")); }
+    }
+}
+
 pub fn emit(e: &mut Emitter, seed: u64, thorough: bool) {
     let mut r = Rng::new(seed ^ 0x04);
+    { let mut rb = Rng::new(seed ^ 0x0404); byte_digest_binding(e, &mut rb); }
     stark_transcripts(e, &mut r, thorough);
     let n_circuits = if thorough { 40 } else { 8 };
     let mut made = 0;
